@@ -62,6 +62,11 @@ func (r record) event() map[string]string {
 			continue
 		}
 		m[f.k] = f.v
+		if f.bare && (f.k == "profile" || f.k == "name" || f.k == "comm") {
+			if b, err := hex.DecodeString(f.v); err == nil && len(f.v) > 0 {
+				m[f.k] = string(b) // the kernel's spelling of an untrusted string: bare upper-case hex
+			}
+		}
 	}
 	return m
 }
@@ -89,6 +94,11 @@ func alphabet() []record {
 		{tag: "child-profile", aa: true, fields: file("DENIED", "open", "foo//null-/srv/bin/tool", "/srv/data/n", "r")},
 		{tag: "dotted-profile", aa: true, fields: file("DENIED", "open", "foo.bar", "/srv/data/dot", "r")},
 		{tag: "dotless-profile", aa: true, fields: file("DENIED", "open", "fooxbar", "/srv/data/nodot", "r")},
+		{tag: "hex-profile", aa: true, fields: []kv{{"apparmor", "DENIED", false}, {"operation", "open", false}, {"class", "file", false}, {"profile", strings.ToUpper(hex.EncodeToString([]byte("foo bar"))), true},
+			{"name", "/srv/data/hexp", false}, {"pid", "0", true}, {"comm", "cat", false}, {"requested_mask", "r", false}, {"denied_mask", "r", false}, {"fsuid", "1000", true}, {"ouid", "1000", true}}},
+		{tag: "near-noise", aa: true, fields: file("DENIED", "open", "foo", "/dev/nullb0", "r")}, // not /dev/null: must be reported
+		{tag: "mount-noise-src", aa: true, fields: []kv{{"apparmor", "DENIED", false}, {"operation", "mount", false}, {"class", "mount", false}, {"info", "failed mntpnt match", false}, {"error", "-13", true},
+			{"profile", "foo", false}, {"name", "/srv/mnt/", false}, {"pid", "0", true}, {"comm", "mount", false}, {"srcname", "/dev/null", false}, {"flags", "rw, bind", false}}},
 		{tag: "file-audit", aa: true, fields: file("AUDIT", "open", "bar", "/srv/data/c", "w")},
 		{tag: "dbus", aa: true, user: true, fields: []kv{{"apparmor", "DENIED", false}, {"operation", "dbus_method_call", false}, {"bus", "system", false}, {"path", "/org/a", false},
 			{"interface", "org.a", false}, {"member", "Get", false}, {"mask", "send", false}, {"name", "org.b", false}, {"pid", "0", true}, {"label", "foo//&unconfined", false}, {"peer_pid", "0", true}, {"peer_label", "unconfined", false}}},
@@ -293,7 +303,7 @@ func c14(minLen, maxLen, shard, of int) int {
 							cause = "very-long-line"
 						}
 						report("reader-fails "+where+" cause="+cause, "the reader stops with "+perr, in...)
-						return
+						continue
 					}
 					same := func(g, w map[string]string) bool {
 						for k, v := range w {
@@ -323,7 +333,16 @@ func c14(minLen, maxLen, shard, of int) int {
 					}
 					if !match(0, 0) {
 						cause := "other"
+						nearNoise, hexProfile := false, false
+						for _, t := range tags {
+							nearNoise = nearNoise || t == "near-noise" || t == "mount-noise-src"
+							hexProfile = hexProfile || t == "hex-profile"
+						}
 						switch {
+						case nearNoise:
+							cause = "record-near-a-noise-path"
+						case hexProfile && flt != "":
+							cause = "hex-encoded-profile-and-filter"
 						case hasLong:
 							cause = "very-long-line"
 						case hasGarbled:
@@ -340,7 +359,7 @@ func c14(minLen, maxLen, shard, of int) int {
 							detail += "; reported events do not match the records, e.g. " + fmt.Sprint(got[len(got)-1])
 						}
 						report("events-differ "+where+" cause="+cause, detail, in...)
-						return
+						continue
 					}
 					// same output on every run: render under every iteration start of the per-event map
 					if len(got) > 0 && flt == "" {
@@ -414,8 +433,8 @@ func permutations(n int, f func(p []int)) {
 func c15(shard, of int) int {
 	n := 0
 	names := []string{"/srv/x", "/srv/a b", "/srv/a=b", "/srv/a#b", "/srv/a,b", "/srv/é", `/srv/a"b`, "ABBA", "/srv/name=x", "/srv/a'b",
-		"/srv/a\\b", "/srv/a\tb", "/srv/caf\xe9", "/srv/a\u00a0b", "/srv/a\x01b", "/srv/live '99'", "/srv/end ", "/srv/end=", "/srv/end,", `/srv/end\`, `/srv/end\\`, `/srv/a\"b`, "comm=41 /x", "/srv/profile=DEAD x"}
-	comms := []string{"cat", "my prog", "ABBA", "a=b", "my\tprog", "'sh'", " sh ", `sh\`}
+		"/srv/a\\b", "/srv/a\tb", "/srv/caf\xe9", "/srv/a\u00a0b", "/srv/a\x01b", "/srv/live '99'", "/srv/end ", "/srv/end=", "/srv/end,", `/srv/end\`, `/srv/end\\`, `/srv/a\"b`, "comm=41 /x", "/srv/profile=DEAD x", "/srv/conf/apparmor=", "/srv/spool/pid=4242 old.txt"}
+	comms := []string{"cat", "my prog", "ABBA", "a=b", "my\tprog", "'sh'", " sh ", `sh\`, "pid=1 helper"}
 	profiles := []string{"foo", "foo bar", "DEAD", "foo//null-/srv/x"}
 	optional := [][]kv{
 		{{"requested_mask", "r", false}, {"denied_mask", "r", false}},
@@ -496,6 +515,9 @@ func c15(shard, of int) int {
 				cause := "other"
 				if strings.Contains(v, "name=") || strings.Contains(v, "comm=") || strings.Contains(v, "profile=") {
 					cause = "value-contains-key-like-text"
+				}
+				if strings.Contains(v, "pid=") {
+					cause = "value-contains-pid-like-text"
 				}
 				report("c15-value-differs key="+k+" cause="+cause, fmt.Sprintf("%s is reported as %q, the record says %q", k, g[k], v), text)
 				return
